@@ -22,7 +22,7 @@ pub const VAR_TOKENS: &[&str] = &[
 ];
 
 /// parameters giving every kind of local variable (non-constant operands)
-pub const PARAMS: &str = "x: int, f: (int)->int, it: ()->(bool, int), c: mut int, t: (int, string), s: struct{a: int}, a: [int], u: int|string, fl: float, st: string, b: bool, an: any, g: (int|string)->(int|float), m: mut (int|string), aa: [any], tt: (int, string)|(float, string), h: ()->(), fi: ()->(bool, float), ss: ()->(bool, string), bi: ()->(bool, bool), nv: ()->!, e0: [], en: ()->(bool, !), um: mut int | mut float, ua: [int] | string";
+pub const PARAMS: &str = "x: int, f: (int)->int, it: ()->(bool, int), c: mut int, t: (int, string), s: struct{a: int}, a: [int], u: int|string, fl: float, st: string, b: bool, an: any, g: (int|string)->(int|float), m: mut (int|string), aa: [any], tt: (int, string)|(float, string), h: ()->(), fi: ()->(bool, float), ss: ()->(bool, string), bi: ()->(bool, bool), nv: ()->!, e0: [], en: ()->(bool, !), um: mut int | mut float, ua: [int] | string, tl: (int, int) | (int, int, int), sl: struct{a: int} | struct{a: string, b: int}, fl2: (int)->int | (int, int)->int";
 /// the subset the token alphabet can name (keeps the exhaustive enumeration cheap)
 pub const PARAMS_SHORT: &str = "x: int, f: (int)->int, it: ()->(bool, int), c: mut int, t: (int, string), s: struct{a: int}, a: [int], u: int|string";
 /// the same names as constants (fold paths)
@@ -127,10 +127,10 @@ impl<'a> Ctx<'a> {
 // ---------------------------------------------------------------------------------------------
 // (b) grammar-directed generation that ignores types
 
-const IDENTS: &[&str] = &["x", "f", "it", "c", "t", "s", "a", "u", "fl", "st", "b", "an", "g", "m", "aa", "tt", "h", "fi", "ss", "bi", "nope", "nv", "e0", "en", "um", "ua", "*um", "nv()", "e0[0]", "[][x]", "([]~)().1"];
+const IDENTS: &[&str] = &["x", "f", "it", "c", "t", "s", "a", "u", "fl", "st", "b", "an", "g", "m", "aa", "tt", "h", "fi", "ss", "bi", "nope", "nv", "e0", "en", "um", "ua", "tl", "sl", "fl2", "*um", "nv()", "e0[0]", "[][x]", "([]~)().1"];
 const TYPES: &[&str] = &["int", "float", "string", "bool", "any", "()", "[int]", "[any]", "(int, string)", "int|string", "mut int", "()->(bool, int)", "(int)->int", "struct{a: int}", "!", "[]", "mut (int|string)", "(int|float, bool)"];
 const BINOPS: &[&str] = &["+", "-", "*", "/", "%", "**", "<<", ">>", "&", "|", "^", "==", "!=", "<", "<=", ">", ">=", "&&", "||", "=", "+=", "-=", "*=", "/=", "%=", "**=", "<<=", ">>=", "&=", "|=", "^=", "@", "?", "\\"];
-const POSTFIX: &[&str] = &["$+", "$*", "$&&", "$||", "$&", "$|", "$]", "~", ".0", ".1", ".a", "()", "(1)", "(x)", "(x, 2)", "[0]", "[x]", "[-1]", "[1:]", "[:2]", "[::2]", "[1:2:1]", "[:]", "[::]", "? int", "? string", "? [int]", "? !"];
+const POSTFIX: &[&str] = &["$+", "$*", "$&&", "$||", "$&", "$|", "$]", "~", ".0", ".1", ".2", ".3", ".a", ".b", "()", "(1)", "(x)", "(x, 2)", "[0]", "[x]", "[-1]", "[1:]", "[:2]", "[::2]", "[1:2:1]", "[:]", "[::]", "? int", "? string", "? [int]", "? !"];
 
 pub fn wild_expr(rng: &mut Rng, depth: usize) -> String {
     if depth == 0 || rng.chance(1, 4) {
@@ -171,7 +171,7 @@ pub fn wild_stm(rng: &mut Rng, depth: usize) -> String {
     let d = depth - 1;
     match rng.below(22) {
         0..=4 => wild_expr(rng, depth),
-        5 | 6 => format!("{} := {}", rng.pick(&["x", "r", "q", "f", "it"]), wild_stm(rng, d)),
+        5 | 6 => format!("{} := {}", rng.pick(&["x", "r", "q", "f", "it", "c", "t", "s", "a", "m", "u"]), wild_stm(rng, d)),
         7 => format!("({}, {}) := {}", rng.pick(&["p", "x"]), rng.pick(&["q", "x"]), wild_stm(rng, d)),
         8 => format!("if {} {{ {} }} else {}", wild_expr(rng, d), wild_block(rng, d), wild_stm(rng, d)),
         9 => format!("if {} {}", wild_expr(rng, d), wild_expr(rng, d)),
@@ -319,6 +319,15 @@ pub const CHECKLIST: &[&str] = &[
     "cnt := mut 0; it2 := () -> (bool, int) { cnt += 1; return (*cnt < 3, *cnt) }; it2 @ (q: int) -> int { return q } ? (q: int) -> bool { return true } $]",
     "e := []; e2 := e + [1]; e3 := [e, [1]]; e3[1][0]",
     "n := ([]~)(); n.0",
+    // a name re-declared in terms of itself, at another type
+    "x := mut 5; x := *x; x",
+    "t := (1, \"a\"); t := t.0; t + 1",
+    "a := [1, 2]; a := a[0]; a + 1",
+    "f := (p: int) -> int { return p }; f := f(1); f + 1",
+    "s := struct{a := 1}; s := s.a; s + 1",
+    "it := [1, 2]~; it := it $]; it[0]",
+    "c := mut int|string 1; c := if v: int = *c { v } else { 0 }; c + 1",
+    "(p, q) := (mut 1, 2); (p, q) := (*p, p); p + *q",
 ];
 
 /// value-arm matches (separate: crash the checker on the pinned tree, D3)
@@ -480,6 +489,23 @@ pub fn run(cfg: &Cfg, rep: &mut Report) {
         }
     }
 
+    // (h) every parameter (incl. unions of tuples / structs / functions / cells of different shapes) x every postfix
+    // form x four usage contexts that make the checker ask for the result type
+    let names: Vec<&str> = PARAMS.split(", ").filter_map(|p| p.split(':').next()).collect();
+    for name in &names {
+        for post in POSTFIX.iter().chain([".2", ".3", ".b", "(1, 2)", "[0][0]", "~ $]", "~ $+"].iter()) {
+            cell += 1;
+            if !cfg.owns(cell) {
+                continue;
+            }
+            for ctxt in ["return {}", "r := {}; r", "h2 := (q: any) -> any {{ return q }}; h2({})", "[{}, 1]", "if v: int = {} {{ v }}", "match {} {{ => 1, }}", "-{}", "mut {}"] {
+                let e = format!("{name}{}{post}", if post.starts_with('?') || post.starts_with('$') || post.starts_with('~') { " " } else { "" });
+                let body = ctxt.replace("{{", "{").replace("}}", "}").replace("{}", &e);
+                ctx.parse("params-x-postfix", &format!("({PARAMS}) -> any {{ {body} }}"), false);
+            }
+        }
+    }
+
     // (a) token sequences: exhaustive up to length 3 (quick) in all contexts
     let nt = TOKENS.len() as u64;
     let exhaustive_len = if cfg.thorough() { 3 } else { 3 };
@@ -547,6 +573,18 @@ pub fn run(cfg: &Cfg, rep: &mut Report) {
     let corpus_tokens: Vec<Vec<String>> = corpus.iter().map(|s| tokenize(s)).collect();
     ctx.rep.add("corpus_programs", if cfg.shard == 0 { corpus.len() as u64 } else { 0 });
 
+    let typed_profiles: Vec<crate::genp::Profile> = {
+        let mut few = crate::genp::Profile::mixed();
+        few.name = "few-names";
+        few.names = &["a", "b", "x"];
+        few.closures = 40;
+        few.modules = 10;
+        let mut hostile = crate::genp::Profile::mixed();
+        hostile.name = "hostile";
+        hostile.err = 30;
+        hostile.names = crate::genp::NAMES_HOSTILE;
+        vec![few, hostile, crate::genp::Profile::mixed()]
+    };
     // sampled families until the budget is used
     let rounds = cfg.per_shard(400_000, 40_000_000);
     for i in 0..rounds {
@@ -555,6 +593,15 @@ pub fn run(cfg: &Cfg, rep: &mut Report) {
                 break;
             }
             cfg.checkpoint(ctx.rep);
+        }
+        if i % 10 == 9 {
+            // (g) programs of the typed generator (shadowing at other types, closures, modules): parse only
+            let profile = typed_profiles[(i / 10 % typed_profiles.len() as u64) as usize].clone();
+            let (body, _) = crate::props::diff::gen_program(cfg.seed ^ 0xC03, cfg.shard, i, &profile);
+            let mode = if i % 20 == 9 { crate::ast::Mode::Literal } else { crate::ast::Mode::Hidden };
+            let text = crate::prog::program_text(&body, mode);
+            ctx.parse("typed-generator", &text, false);
+            continue;
         }
         match rng.below(10) {
             0 | 1 => {
